@@ -24,7 +24,6 @@ import (
 	shop "github.com/flant/shell-operator/pkg/shell-operator"
 	"github.com/flant/shell-operator/pkg/task"
 	task_metadata "github.com/flant/shell-operator/pkg/hook/task_metadata"
-	"github.com/flant/shell-operator/pkg/task/queue"
 	"k8s.io/apimachinery/pkg/apis/meta/v1/unstructured"
 	simrt "verifsimrt"
 )
@@ -459,7 +458,13 @@ func (o *OpSim) locateTask(x *Exec) {
 		idx int
 	}
 	var cands []cand
-	o.Op.TaskQueues.Iterate(func(q *queue.TaskQueue) {
+	// one GetByName per known queue name (a single read lock each; TaskQueueSet.Iterate takes the
+	// set's read lock recursively and must not be added to the system by the harness)
+	for _, qn := range o.queueNames() {
+		q := o.Op.TaskQueues.GetByName(qn)
+		if q == nil {
+			continue
+		}
 		idx := 0
 		q.Iterate(func(t task.Task) {
 			defer func() { idx++ }()
@@ -477,10 +482,25 @@ func (o *OpSim) locateTask(x *Exec) {
 			}
 			cands = append(cands, cand{q.Name, idx})
 		})
-	})
+	}
 	if len(cands) == 1 {
 		x.QueueSeen, x.HeadIdx = cands[0].q, cands[0].idx
 	}
+}
+
+func (o *OpSim) queueNames() []string {
+	set := map[string]bool{"main": true}
+	for _, h := range o.Hooks {
+		for _, b := range h.Kube {
+			set[b.effQueue()] = true
+		}
+		for _, b := range h.Sched {
+			if b.Queue != "" {
+				set[b.Queue] = true
+			}
+		}
+	}
+	return sortedKeys(set)
 }
 
 func toUnstructured(m map[string]any) *unstructured.Unstructured {
@@ -511,13 +531,12 @@ func (o *OpSim) QueuesEmpty() bool {
 	if o.inFlight > 0 {
 		return false
 	}
-	empty := true
-	o.Op.TaskQueues.Iterate(func(q *queue.TaskQueue) {
-		if q.Length() > 0 {
-			empty = false
+	for _, qn := range o.queueNames() {
+		if q := o.Op.TaskQueues.GetByName(qn); q != nil && q.Length() > 0 {
+			return false
 		}
-	})
-	return empty
+	}
+	return true
 }
 
 // Quiet: watches drained, queues empty, nothing in flight.
